@@ -95,18 +95,25 @@ func HarnessC05_Winner() {
 	x := vfFreeEntry("x", vfIDs[0], maxTok)
 	y := vfFreeEntry("y", vfIDs[1], maxTok)
 	vfAssume(vfAnd(x.State != LEFT, y.State != LEFT))
-	mk := func() *Desc {
+	// the incoming descriptor with its entries inserted in either order: the
+	// engine iterates maps in insertion order, so the two replicas visit the
+	// colliding entries in opposite orders (natively the order is random).
+	mk := func(xFirst bool) *Desc {
 		o := NewDesc()
-		o.Ingesters[x.Id] = InstanceDesc{Id: x.Id, Addr: x.Addr, Zone: "z", State: x.State, Timestamp: x.Timestamp, Tokens: append([]uint32(nil), x.Tokens...), RegisteredTimestamp: 7}
-		o.Ingesters[y.Id] = InstanceDesc{Id: y.Id, Addr: y.Addr, Zone: "z", State: y.State, Timestamp: y.Timestamp, Tokens: append([]uint32(nil), y.Tokens...), RegisteredTimestamp: 7}
+		ex := InstanceDesc{Id: x.Id, Addr: x.Addr, Zone: "z", State: x.State, Timestamp: x.Timestamp, Tokens: append([]uint32(nil), x.Tokens...), RegisteredTimestamp: 7}
+		ey := InstanceDesc{Id: y.Id, Addr: y.Addr, Zone: "z", State: y.State, Timestamp: y.Timestamp, Tokens: append([]uint32(nil), y.Tokens...), RegisteredTimestamp: 7}
+		if xFirst {
+			o.Ingesters[x.Id] = ex
+			o.Ingesters[y.Id] = ey
+		} else {
+			o.Ingesters[y.Id] = ey
+			o.Ingesters[x.Id] = ex
+		}
 		return o
 	}
 	r1, r2 := NewDesc(), NewDesc()
-	vfMapOrder(0)
-	_, err1 := r1.mergeWithTime(mk(), false, time.Unix(vfEpoch, 0))
-	vfMapOrder(1)
-	_, err2 := r2.mergeWithTime(mk(), false, time.Unix(vfEpoch, 0))
-	vfMapOrder(0)
+	_, err1 := r1.mergeWithTime(mk(true), false, time.Unix(vfEpoch, 0))
+	_, err2 := r2.mergeWithTime(mk(false), false, time.Unix(vfEpoch, 0))
 	vfAssert(err1 == nil && err2 == nil, "C05 merges do not fail")
 	vfAssert(vfSameDesc(r1, r2), "C05 colliding claims resolve to the same owner whatever the iteration order")
 	vfAssert(vfInv(r1), "C05 invariant after resolving collisions")
